@@ -690,10 +690,17 @@ class SecureSequenceTimer:
 
     def _notify_timer_expired(self, update: tuple[bytes, bytes] | None) -> None:
         """Notify timer expired."""
-        if update:
-            self.send_timer_notify(message_tag=update[0], serial_number=update[1])
-        else:
-            self.send_timer_notify()
+        try:
+            if update:
+                self.send_timer_notify(message_tag=update[0], serial_number=update[1])
+            else:
+                self.send_timer_notify()
+        except OverflowError:
+            # called from the event loop - the timer has left its 48 bit range
+            # (it follows the highest value an authenticated frame carried)
+            ip_secure_logger.warning(
+                "KNX IP Secure timer overflow. TimerNotify can not be sent."
+            )
         if not self.timekeeper:
             self.timekeeper = True
             ip_secure_logger.debug("Becoming timekeeper")
